@@ -61,6 +61,18 @@ def special_cases(rnd):
         # signatures as header field 8 with mis-nested brackets
         for sg in ("(a{ii)i}", "a{i(i})", "a(a{ii)i}", "((a{ii)i}i)"):
             out.append(mk(sg, b"\0" * 32, le))
+    # string contents: one NUL / continuation byte at every position of body strings of every length up to three machine words,
+    # as a plain argument, inside a variant and as an array element
+    for L in range(1, 26):
+        for pos in range(L):
+            for bad in (0x00, 0x80):
+                sv = bytearray(b"a" * L)
+                sv[pos] = bad
+                raw = struct.pack("<I", L) + bytes(sv) + b"\0"
+                out.append(mk("s", raw))
+                if bad == 0 or pos % 3 == 0:
+                    out.append(mk("v", b"\x01s\0\0" + raw))
+                    out.append(mk("as", struct.pack("<I", len(raw)) + raw))
     # body signature nesting of arrays and structs at 31..34 with empty arrays
     for k in (31, 32, 33):
         out.append(mk("a" * k + "i", struct.pack("<I", 0)))
